@@ -96,6 +96,9 @@ fn run_case(case: &Sexp, scratch: &Path) -> String {
         .field("schedule")
         .map(|l| l.iter().filter_map(|s| s.atom()?.parse().ok()).collect());
     let want_text = case.field("text").is_some();
+    // (parse_only): the case is about the parser alone (C18) -- the build is not run, so that an attribute the
+    // semantic pass would act on (a vftable index of 2^63 - 1 ...) costs nothing
+    let parse_only = case.field("parse_only").is_some();
 
     let _ = std::fs::remove_dir_all(scratch);
     let in_dir = scratch.join("in");
@@ -161,8 +164,12 @@ fn run_case(case: &Sexp, scratch: &Path) -> String {
     }
 
     // Run A: the real top-level entry point.
-    let r = catch_unwind(AssertUnwindSafe(|| pyxis::build(&in_dir, &out_dir, ptr)));
-    out += &format!(" (verdict {})", verdict_of(r));
+    if parse_only {
+        out += " (verdict skipped)";
+    } else {
+        let r = catch_unwind(AssertUnwindSafe(|| pyxis::build(&in_dir, &out_dir, ptr)));
+        out += &format!(" (verdict {})", verdict_of(r));
+    }
 
     // Run B: the same pipeline through the public API, to read the registry.
     let paths: Vec<PathBuf> = match glob::glob(&format!("{}/**/*.pyxis", in_dir.display())) {
@@ -170,16 +177,20 @@ fn run_case(case: &Sexp, scratch: &Path) -> String {
         Err(_) => vec![],
     };
     let mut registry = String::new();
-    let r = catch_unwind(AssertUnwindSafe(|| -> anyhow::Result<()> {
-        let mut st = pyxis::semantic::SemanticState::new(ptr);
-        for p in &paths {
-            st.add_file(&in_dir, p)?;
-        }
-        let resolved = st.build()?;
-        registry = registry_dump(&resolved);
-        Ok(())
-    }));
-    out += &format!(" (api_verdict {})", verdict_of(r));
+    if parse_only {
+        out += " (api_verdict skipped)";
+    } else {
+        let r = catch_unwind(AssertUnwindSafe(|| -> anyhow::Result<()> {
+            let mut st = pyxis::semantic::SemanticState::new(ptr);
+            for p in &paths {
+                st.add_file(&in_dir, p)?;
+            }
+            let resolved = st.build()?;
+            registry = registry_dump(&resolved);
+            Ok(())
+        }));
+        out += &format!(" (api_verdict {})", verdict_of(r));
+    }
 
     out += " (asts";
     for p in &paths {
